@@ -125,6 +125,10 @@ let handle (x : sx) : string =
         (show_vals (run_on pk_std [pf] w n))
         (String.concat " " (List.map (function None -> "_" | Some v -> string_of_extz v) spec))
         (show_bool (run_past_guard f)) (show_bool (run_exact pk_std pf w n && run_exact pk_std f w n)) (int_of_nat (run_hor f))
+  | L [A "jitter"; p; tol; L ts] ->
+      let q_of = function L [a; b] -> { qnum = z_of_int (int_of_string (atom a)); qden = pos_of_int (int_of_string (atom b)) } | _ -> failwith "q" in
+      let (a, (b, c)) = run_jitter (q_of p) (q_of tol) (List.map q_of ts) in
+      Printf.sprintf "COUNT %d | OFFCOUNT %d | SPEC %d" (int_of_nat a) (int_of_nat b) (int_of_nat c)
   | L [A "info"; f] ->
       let f = formula_of_sx f in
       Printf.sprintf "HOR %d | BF %s | PAST %s | ISBOOL %s" (int_of_nat (run_hor f)) (show_bool (run_bounded_future f))
